@@ -6,3 +6,82 @@ claim("C01", "arith",
       "bound for the u8/u16-word types, Bvd and Bv (with spare-capacity / heap-mode provenances), the complete boundary lattice for every word type, "
       "all six native types (u8 complete); results whose representation differs from a fresh vector go through the differential observer battery.",
       TRUST, "DESIGN.md 4/C01")
+claim("C02", "arith",
+      "explicit-state exhaustive enumeration (step mode) of real division code vs bit-list reference model",
+      "Every (dividend kind, divisor kind/native type, length pair, value pair) of the declared finite domain through / % /= %= and div_rem, in both build profiles: "
+      "zero-valued divisors of every length (incl. empty) must panic, all others must return floor(a/b), a mod b with the dividend's length; divisors longer than the dividend "
+      "and than its fixed capacity are in the domain by construction.", TRUST, "DESIGN.md 4/C02")
+claim("C03", "hist",
+      "explicit-state BFS over real representations: closure (fixpoint) of the reachable state space, depth-bounded BFS elsewhere",
+      "For Bvf<u8,1> and Bvf<u8,2> every reachable concrete representation is visited and every action of the full public alphabet is applied to it and compared with the "
+      "list model, so 'representation = fresh representation of the model bits' is shown inductive: histories of any length, bounded only by the operand alphabet. "
+      "Bvf<u8,3> (len<=20, thorough), every other word type, Bvd and Bv (inline and heap, with and without spare capacity) are explored breadth-first to depth 2 (quick) / 3 (thorough) "
+      "from boundary roots; every state whose representation differs from a fresh vector goes through the differential observer battery.", TRUST, "DESIGN.md 4/C03")
+claim("C04", "arith",
+      "explicit-state exhaustive enumeration (step mode) of real bitwise operators vs bit-list reference model",
+      "Every (lhs kind, rhs kind/native, lengths, values) of the declared domain through & | ^ (value and assign forms) and !a / !&a; right operands longer than the left with set bits "
+      "beyond its length are in the domain by construction; results are compared bit by bit and, when not representation-identical to a fresh vector, through the observer battery.", TRUST, "DESIGN.md 4/C04")
+claim("C05", "arith",
+      "explicit-state exhaustive enumeration (step mode) of real shift code vs bit-list reference model",
+      "All values up to the FULL bound (and the lattice for wide kinds) x shift amounts 0..=n+2, every word boundary +-1, every narrowing boundary up to u128::MAX in every amount type, "
+      "every u8 amount and every u16 amount for the u8-word kinds, both directions, all six operator forms, plus shl_in/shr_in with both bits including n=0.", TRUST, "DESIGN.md 4/C05")
+claim("C06", "arith",
+      "explicit-state exhaustive enumeration (step mode, plus the inverse rotation as a second step) vs index-permutation model",
+      "rotl/rotr by every k in 0..=n on all values up to the FULL bound (all 2^n values of Bvf<u8,2>/Bvf<u8,3> in thorough) and the lattice of every kind; each result is then rotated back "
+      "(second step) and must restore the original.", TRUST, "DESIGN.md 4/C06")
+claim("C07", "hist",
+      "explicit-state BFS: closure of Bvf<u8,1>/Bvf<u8,2> under the edit alphabet, depth-bounded BFS for wide kinds, Bvd, Bv",
+      "push pop set resize truncate sign_extend append prepend insert extend collect with operands of every implementation (incl. empty) against list edits; closure for the u8-word "
+      "types, depth 2/3 from boundary roots crossing word and inline/heap boundaries elsewhere, plus scripted growth to >2000 bits for Bvd and Bv.", TRUST, "DESIGN.md 4/C07")
+claim("C08", "conv",
+      "exhaustive step-mode enumeration of slices/splits of real vectors vs list model",
+      "copy_range for all (s,e), split_off/split for all i (all indices up to 12 bits, boundary index set beyond), first/last, rejoin by append, on the standard domain of all 17 kinds "
+      "(Bv sources in both storage modes); returned vectors go through representation identity / battery; source re-read after the call.", TRUST, "DESIGN.md 4/C08")
+claim("C09", "conv",
+      "exhaustive enumeration of ordered pairs over all 17x17 kind pairings vs numeric comparison of model values",
+      "== != < <= > >= partial_cmp (and Ord::cmp for equal types) for all values up to the FULL bound in every ordered kind pairing, lattice pairs up to 257 bits, operands with spare "
+      "capacity / heap mode; plus triples for transitivity/totality on the real answers.", TRUST, "DESIGN.md 4/C09")
+claim("C10", "conv",
+      "exhaustive enumeration of numerically equal same-type pairs (all lengths/capacities/storage modes) with a call-recording Hasher",
+      "For every value in the domain, every pair of representations of it (lengths sig..sig+W+1 and lattice lengths; every capacity provenance of Bvd; inline/heap x spare for Bv) that the "
+      "implementation reports equal must feed an identical call sequence to a recording Hasher, hash equally under DefaultHasher and be found in a HashSet.", TRUST, "DESIGN.md 4/C10")
+claim("C11", "conv",
+      "exhaustive enumeration of integer<->vector conversions vs value model",
+      "u8 (and u16 in thorough) complete, lattice for wider types, into all 17 kinds by value and by reference; slices of 0..5 elements; every vector of the standard domain to all six "
+      "integer types by value and by reference (empty vectors included; must not panic); Bit<->bool/integers.", TRUST, "DESIGN.md 4/C11")
+claim("C12", "conv",
+      "exhaustive enumeration of every implemented From/TryFrom between the 17 kinds vs identity model",
+      "All ordered kind pairs for which an impl exists, by reference and by value, sources from the standard domain plus lengths at C_target-1/C_target/C_target+1, with spare capacity and in "
+      "both Bv modes: Ok with identical length/bits iff it fits, NotEnoughCapacity otherwise; new(into_inner()) reproduces the representation.", TRUST, "DESIGN.md 4/C12")
+claim("C13", "conv",
+      "exhaustive enumeration of byte strings/lengths plus deviation-bounded exploration of the I/O environment's answers",
+      "to_vec/write for all lengths (not only multiples of 8), from_bytes for all strings of <=2 bytes and pattern strings to 33 bytes, read for every len per string with trailing sentinel "
+      "bytes under every reader/writer answer script with at most 1 (quick) / 2 (thorough) deviations (short transfer, Interrupted, hard error, EOF), short input, insufficient capacity; round trips.", TRUST + " std's documented read_exact/write_all semantics are part of the model.", "DESIGN.md 4/C13")
+claim("C14", "conv",
+      "exhaustive enumeration of (vector, format spec) vs Rust's own formatting of u128 / digit-level model",
+      "38 format specifications (all five radices x #, +, 0, width, fill, alignment combinations) on the standard domain of all kinds: identical string to format!(spec, value as u128) up to "
+      "128 bits and to the bit-list digit model padded by Formatter::pad_integral beyond.", TRUST, "DESIGN.md 4/C14")
+claim("C15", "conv",
+      "exhaustive enumeration of short strings over small alphabets plus capacity-boundary strings vs parsing model",
+      "All binary strings up to the bound, all strings over {0,1,2,x,e-acute} up to 5 chars, all hex strings up to 3 chars, strings with blanks / non-ASCII / full-width digits, pattern strings "
+      "at every capacity and inline-limit boundary, for all 17 kinds; parse of {:b}/{:x}/{:X} output of the standard domain.", TRUST, "DESIGN.md 4/C15")
+claim("C16", "conv",
+      "exhaustive enumeration of vectors vs run-length model",
+      "leading/trailing zeros/ones, significant_bits, is_zero and the two identities on all 2^n values up to 16 (Bvf<u8,2>) / 20 (Bvf<u8,3>, thorough) bits and the 3-run lattice of every kind "
+      "and lattice length, subjects with spare capacity and in both Bv modes.", TRUST, "DESIGN.md 4/C16")
+claim("C17", "iter",
+      "closure of the real iterator's (start,end) state space under the whole call alphabet vs std::slice::Iter",
+      "For each subject vector every reachable iterator state (real (start,end) through the verif-hooks accessor paired with the model iterator's remaining slice) is reached by replaying its "
+      "call history on a fresh iter(); from every state next, next_back, nth(k), nth_back(k) with k up to usize::MAX, size_hint, count, last, rev().collect(), collect() are compared.", TRUST, "DESIGN.md 4/C17")
+claim("C18", "hist",
+      "depth-bounded explicit-state BFS over Bvd and Bv under the capacity alphabet with state invariants",
+      "with_capacity roots, reserve, shrink_to_fit, edits crossing the 64-bit and inline/heap boundaries and op= with longer operands, depth 2/3: len<=capacity in every state, "
+      "reserve/shrink postconditions, bits unchanged (model), no panic, both Bv mode switches observed.", TRUST, "DESIGN.md 4/C18")
+claim("C19", "hist",
+      "exhaustive step-mode enumeration of growth operations at the capacity boundary in both build profiles",
+      "Every fixed kind x lengths 0,C-W,C-2,C-1,C x every constructor and growing mutator with amounts landing at C-1,C,C+1,C+W,C+W+1: fits => list model, does not fit => panic / documented "
+      "Err in both profiles, never len>capacity; out-of-range get/set/copy_range/split_off must panic in the debug-assertion build.", TRUST, "DESIGN.md 4/C19")
+claim("C20", "arith",
+      "exhaustive differential enumeration of all operator forms on real code",
+      "For every operand pair of the domain and each of + - * / % & | ^ (6 forms) and << >> (6 forms): all forms yield the identical length and bits or all panic; a native integer operand "
+      "gives the same result as a vector built from it in four implementations; by-reference operands and earlier clones are re-read and must be bit-identical.", "Differential (no model needed); " + TRUST, "DESIGN.md 4/C20")
